@@ -80,3 +80,9 @@ def angdiff(a, b):
 def fr(x):
     x = F(x)
     return "%d/%d" % (x.numerator, x.denominator)
+
+
+def encode_str(base, i, lat_s, lon_s):
+    """Python spec encoder in the driver's output format (ties Spec/CPR.lean to this file)"""
+    e = encode(F(lat_s), F(lon_s), i, base)
+    return "%d|%d|%s|%s" % (e["yz"], e["xz"], fr(e["rlat"]), fr(e["rlon"]))
